@@ -93,7 +93,7 @@ fn encode(c: &Case, pcm: &[i32]) -> Result<Finished, String> {
     // frame.  They are dropped by finalize (documented) and must leave no trace: not in the audio, not in the MD5
     if c.kind.is_byte() && !c.declare && u > 1 && (c.frames + c.chunks.len()) % 3 == 0 {
         let k = 1 + (c.frames % (u - 1));
-        let stray: Vec<u8> = (0..k).map(|i| (0xA5u8).wrapping_add(i as u8 * 29)).collect();
+        let stray: Vec<u8> = (0..k).map(|i| (0xA5u8).wrapping_add((i as u8).wrapping_mul(29))).collect();
         let o = w.write(&[], Some(&stray), c.bps, c.ch as usize);
         if !o.is_ok() {
             w.forget();
